@@ -149,6 +149,13 @@ pub fn gen_system(t: &mut Tape, cfg: &SysCfg) -> SysCase {
         }
         state_types.push(tpe);
     }
+    // a "gate": a 1-bit state that no next-state function reads; only a constraint (and perhaps a bad
+    // state) looks at it, so whether a step is enabled depends on a state the transition relation
+    // otherwise ignores
+    let with_gate = cfg.mc_bias && bits_left >= 1 && !state_types.is_empty() && t.chance(110);
+    if with_gate {
+        state_types.push(Type::BV(1));
+    }
     let n_inputs = t.below(cfg.max_inputs + 1);
     let mut input_types: Vec<Type> = vec![];
     let mut ibits = cfg.max_input_bits;
@@ -161,6 +168,12 @@ pub fn gen_system(t: &mut Tape, cfg: &SysCfg) -> SysCase {
         input_types.push(Type::BV(w));
     }
 
+    if with_gate && !input_types.iter().any(|t| *t == Type::BV(1)) {
+        if input_types.len() as u32 >= cfg.max_inputs.max(1) {
+            input_types.pop();
+        }
+        input_types.push(Type::BV(1));
+    }
     // ---- inputs (an init expression may read inputs when `init_reads_inputs` is drawn: the
     //      initial state then depends on the input of step 0, as in inputs/unittest/dangling.btor2)
     let init_reads_inputs = cfg.init_may_read_inputs && t.chance(48);
@@ -185,7 +198,20 @@ pub fn gen_system(t: &mut Tape, cfg: &SysCfg) -> SysCase {
     let mut states: Vec<(ExprRef, Option<ExprRef>)> = vec![];
     // states that are re-loaded with their (non-literal) init expression every cycle: init == next
     let mut reload: Vec<bool> = vec![];
+    let gate_idx = if with_gate { Some(state_types.len() - 1) } else { None };
     for (k, tpe) in state_types.iter().enumerate() {
+        if Some(k) == gate_idx {
+            reload.push(false);
+            let init = match t.below(3) {
+                0 => None,
+                1 => Some(ctx.get_true()),
+                _ => Some(ctx.get_false()),
+            };
+            let sym = ctx.bv_symbol("gate", 1);
+            // deliberately not added to the expression generator's pool: nothing else reads it
+            states.push((sym, init));
+            continue;
+        }
         let is_reload = (k > 0 || init_reads_inputs) && t.chance(if cfg.mc_bias { 44 } else { 24 });
         reload.push(is_reload);
         let init = match if is_reload { 2 } else { t.weighted(if cfg.mc_bias { &[1, 7, 2] } else { &[3, 4, 3] }) } {
@@ -242,6 +268,28 @@ pub fn gen_system(t: &mut Tape, cfg: &SysCfg) -> SysCase {
     // ---- next functions
     for (k, (sym, init)) in states.iter().enumerate() {
         let tpe = sym.get_type(&ctx);
+        if Some(k) == gate_idx {
+            // the gate follows a bit of another state, an input bit, or toggles
+            let others: Vec<ExprRef> =
+                states[..k].iter().map(|(s, _)| *s).filter(|s| s.get_type(&ctx).is_bit_vector()).collect();
+            let bools: Vec<ExprRef> = inputs.iter().copied().filter(|i| i.get_bv_type(&ctx) == Some(1)).collect();
+            let src = match t.weighted(&[10, 2, 2]) {
+                0 if !others.is_empty() => {
+                    let o = others[t.below(others.len() as u32) as usize];
+                    let w = o.get_bv_type(&ctx).unwrap();
+                    let b = t.below(w);
+                    ctx.slice(o, b, b)
+                }
+                1 if !bools.is_empty() => bools[t.below(bools.len() as u32) as usize],
+                _ => {
+                    // reads itself: then it is not a pure gate, which is fine as a control case
+                    ctx.not(*sym)
+                }
+            };
+            let next = if t.flag() { src } else { ctx.not(src) };
+            sys.add_state(&ctx, State { symbol: *sym, init: *init, next: Some(next) });
+            continue;
+        }
         if reload[k] {
             sys.add_state(&ctx, State { symbol: *sym, init: *init, next: *init });
             continue;
@@ -283,7 +331,13 @@ pub fn gen_system(t: &mut Tape, cfg: &SysCfg) -> SysCase {
                     let lit = ctx.bv_lit(&Bv::from_u64(w, k & if w >= 64 { u64::MAX } else { (1u64 << w) - 1 }).to_baa());
                     let inc = if t.flag() { ctx.add(*sym, lit) } else { ctx.sub(*sym, lit) };
                     let bools: Vec<ExprRef> = inputs.iter().copied().filter(|i| i.get_bv_type(&ctx) == Some(1)).collect();
-                    if !bools.is_empty() && t.flag() {
+                    if with_gate && !bools.is_empty() && t.chance(200) {
+                        // advances only under the input that the gate's constraint guards; otherwise holds or
+                        // falls back to zero
+                        let en = bools[0];
+                        let other = if t.flag() { ctx.zero(w) } else { *sym };
+                        Some(ctx.ite(en, inc, other))
+                    } else if !bools.is_empty() && t.flag() {
                         let en = bools[t.below(bools.len() as u32) as usize];
                         Some(ctx.ite(en, inc, *sym))
                     } else if t.chance(60) && w >= 2 {
@@ -335,6 +389,23 @@ pub fn gen_system(t: &mut Tape, cfg: &SysCfg) -> SysCase {
         sys.constraints.push(c);
     }
     pad(&mut ctx, t);
+    if let Some(gi) = gate_idx {
+        let gate = states[gi].0;
+        let bools: Vec<ExprRef> = inputs.iter().copied().filter(|i| i.get_bv_type(&ctx) == Some(1)).collect();
+        let c = match t.weighted(&[10, 2, 1, 1]) {
+            0 if !bools.is_empty() => {
+                let g = if t.chance(64) { ctx.not(gate) } else { gate };
+                ctx.implies(bools[0], g)
+            }
+            1 if !bools.is_empty() => {
+                let i = bools[t.below(bools.len() as u32) as usize];
+                ctx.or(i, gate)
+            }
+            2 => gate,
+            _ => ctx.not(gate),
+        };
+        sys.constraints.push(c);
+    }
     // ---- bad states
     let n_bad = if cfg.mc_bias { 1 + t.weighted(&[6, 2, 1]).min(cfg.max_bads.max(1) as usize - 1) as u32 } else { 1 + t.below(cfg.max_bads.max(1)) };
     for _ in 0..n_bad {
